@@ -22,9 +22,27 @@ func UnitsOf(label string) *schema.UnitsDefinition {
 		return schema.UnitCharacters
 	case "pct":
 		return schema.UnitPercentage
+	case "dbytes":
+		return decimalBytes
+	case "dsec":
+		return decimalSeconds
 	}
 	panic("gen: unknown units " + label)
 }
+
+// Custom definitions with the names of built-in ones and other factors.
+var decimalBytes = schema.NewUnits(schema.NewUnit("B", "B", "byte", "bytes"), map[int64]*schema.UnitDefinition{
+	1000:             schema.NewUnit("kB", "kB", "kilobyte", "kilobytes"),
+	1000000:          schema.NewUnit("MB", "MB", "megabyte", "megabytes"),
+	1000000000:       schema.NewUnit("GB", "GB", "gigabyte", "gigabytes"),
+	1000000000000:    schema.NewUnit("TB", "TB", "terabyte", "terabytes"),
+	1000000000000000: schema.NewUnit("PB", "PB", "petabyte", "petabytes"),
+})
+var decimalSeconds = schema.NewUnits(schema.NewUnit("s", "s", "second", "seconds"), map[int64]*schema.UnitDefinition{
+	100:     schema.NewUnit("m", "m", "minute", "minutes"),
+	10000:   schema.NewUnit("H", "H", "hour", "hours"),
+	1000000: schema.NewUnit("d", "d", "day", "days"),
+})
 
 // FreshUnits builds a new definition equal to the built-in one (cold caches).
 func FreshUnits(label string) *schema.UnitsDefinition {
